@@ -110,7 +110,7 @@ def document(kind, shape, pos):
 def cases(ctx):
     res = ctx.tlc("MC_XmlShape", "run.cfg", workers=1,
                   extra_files={"run.cfg": "SPECIFICATION Spec\nINVARIANT InvTableSane\nCONSTRAINT Emit\nCHECK_DEADLOCK FALSE\n"},
-                  label="MC_XmlShape kinds x shapes x positions", tags=("XSHAPE",), timeout=1500)
+                  label="MC_XmlShape kinds x shapes x positions", tags=("XSHAPE",), require_cases=True, timeout=1500)
     out, seen = [], set()
     for _t, c in res.printed:
         key = (c["kind"], c["shape"], c["pos"])
